@@ -1,9 +1,5 @@
 // harness: c08_pruning::c08_encode_value_cross_kind_fractional_witness (feature c08)
 // replay: cd /verif && ./check --replay /verif/evidence/replays/C08/c08_encode_value_cross_kind_fractional_witness.rs
-/// Test generated for harness `c08_pruning::c08_encode_value_cross_kind_fractional_witness` 
-///
-/// Check for `assertion`: ""GE/GT probe keeps the zone holding a matching value""
-
 #[test]
 fn kani_concrete_playback_c08_encode_value_cross_kind_fractional_witness_1309325274526478983() {
     let concrete_vals: Vec<Vec<u8>> = vec![
@@ -16,10 +12,6 @@ fn kani_concrete_playback_c08_encode_value_cross_kind_fractional_witness_1309325
     ];
     kani::concrete_playback_run(concrete_vals, c08_encode_value_cross_kind_fractional_witness);
 }
-
-/// Test generated for harness `c08_pruning::c08_encode_value_cross_kind_fractional_witness` 
-///
-/// Check for `assertion`: ""LE/LT probe keeps the zone holding a matching value""
 
 #[test]
 fn kani_concrete_playback_c08_encode_value_cross_kind_fractional_witness_14629206970022129556() {
